@@ -158,7 +158,7 @@ pub fn sample_for_regex(regex: &str, ctr: &mut usize) -> String {
 /// a sample value when it is a character element. `None` when a required attribute has no value in v.
 pub fn minimal_node(name: ElementName, t: ElementType, v: AutosarVersion, ctr: &mut usize) -> Option<Node> {
     let mut n = Node::new(name.to_str());
-    for (an, spec, required) in t.attribute_spec_iter() {
+    for (an, spec, required) in attribute_specs(t).into_iter() {
         if required {
             let aspec = t.find_attribute_spec(an)?;
             if !v.compatible(aspec.version) {
@@ -192,4 +192,21 @@ pub fn wrap_in_path(path: &[Step], leaf: Node, v: AutosarVersion, ctr: &mut usiz
         cur = parent;
     }
     Some(cur)
+}
+
+/// the attributes of an element type, found by looking up *every* attribute name (not by the crate's own listing, whose
+/// iterator is part of what is checked): (name, value spec, required)
+pub fn attribute_specs(t: ElementType) -> Vec<(AttributeName, &'static CharacterDataSpec, bool)> {
+    use std::collections::HashMap;
+    use std::str::FromStr;
+    use std::sync::{OnceLock, RwLock};
+    static NAMES: OnceLock<Vec<AttributeName>> = OnceLock::new();
+    static CACHE: RwLock<Option<HashMap<ElementType, Vec<(AttributeName, &'static CharacterDataSpec, bool)>>>> = RwLock::new(None);
+    if let Some(v) = CACHE.read().unwrap().as_ref().and_then(|m| m.get(&t)) {
+        return v.clone();
+    }
+    let names = NAMES.get_or_init(|| AttributeName::verif_string_table().iter().filter_map(|s| AttributeName::from_str(s).ok()).collect());
+    let v: Vec<(AttributeName, &'static CharacterDataSpec, bool)> = names.iter().filter_map(|n| t.find_attribute_spec(*n).map(|a| (*n, a.spec, a.required))).collect();
+    CACHE.write().unwrap().get_or_insert_with(HashMap::new).insert(t, v.clone());
+    v
 }
